@@ -226,6 +226,21 @@ def run(ctx):
             ctx.known("id=%s site=%s class=%s witness=%s still fails" % (kf["id"], kf.get("site"), kf.get("class"), kf["witness"]))
         else:
             ctx.notes.append("finding %s no longer reproduces" % kf["id"])
+    # runtime part: same UUID in every process - the same generated values in a second harness process
+    rows2 = vc.hrows(["-mode", "uuid", "-seed", str(ctx.seed), "-n", "4000" if thorough else "600"])
+    cross, crossbad = 0, 0
+    for a, b in zip(rows, rows2):
+        if a["kind"] != b["kind"] or a.get("v") != b.get("v") or a.get("a") != b.get("a"):
+            break   # the shorter second run has ended its common prefix of values
+        for fld in ("uuid", "ua", "ub"):
+            if fld in a:
+                cross += 1
+                if a[fld] != b.get(fld):
+                    crossbad += 1
+                    if crossbad <= 3:
+                        ctx.violation({"kind": "property-violated-by-implementation", "class": "uuid-differs-across-processes",
+                                       "failing_input": {"value": a.get("v") or a.get("a"), "first_process": a[fld], "second_process": b.get(fld)}})
+    ctx.cov["cross_process_uuid_comparisons"] = cross
     # runtime part: same UUID on every call, in every goroutine (sequential answers vs 64 goroutines at once)
     conc = vc.hrows(["-mode", "uuidconc", "-seed", str(ctx.seed), "-n", "400" if thorough else "40"])
     for r in conc:
